@@ -103,21 +103,15 @@ theorem mapAddPut_spec (h : Heap) (hw : h.WF) (m : Nat) (ents : List Nat) (es : 
     (nk key : Str) (fuel : Nat) (xa : Option Nat) (x : Option V) (hg : getHV h m = some (.tbl ents))
     (hr : RepEntries h ents es Ft) (hmF : m ∉ Ft) (hF : ∀ a, a ∈ Ft → a < h.next) (hmf : mapFind es nk = none)
     (hsr : SrcRep h fuel xa x) :
-    findEntry (alloc h (.str nk)).2 ents nk = some none
-    ∧ ∃ hv h2 h4 F', copyFields fuel (alloc (alloc h (.str nk)).2 (.str key)).2 xa = some (hv, h2)
-      ∧ putHV (alloc h2 (.entry hv h.next (h.next + 1))).2 m (.tbl (ents ++ [h2.next])) = some h4
-      ∧ ObjUpd h h4 m Ft (.tbl (ents ++ [h2.next])) (.tbl (mapSet es nk key x)) F' [] := by
+    ∃ e h3 h4 F', mapAddH fuel h ents nk key xa = some (ents ++ [e], h3)
+      ∧ putHV h3 m (.tbl (ents ++ [e])) = some h4
+      ∧ ObjUpd h h4 m Ft (.tbl (ents ++ [e])) (.tbl (mapSet es nk key x)) F' [] := by
   have hmlt := getHV_lt hw hg
   have e0 := Ext.alloc h (.str nk) hw
   generalize hh0 : (alloc h (.str nk)).2 = h0 at e0
   have hn0 : h0.next = h.next + 1 := by rw [← hh0]; rfl
   have hkn0 : h0.cell h.next = some (.str nk) := by rw [← hh0]; simp [alloc_cell]
   have hr0 : RepEntries h0 ents es Ft := RepEntries_congr h h0 es ents Ft (fun a ha => e0.frame a (hF a ha)) hr
-  have hfe : findEntry h0 ents nk = some none := by
-    rcases RepEntries_find h0 es ents Ft nk hr0 with ⟨_, hfe⟩ | ⟨e, ko, v, Fe, hmf', _⟩
-    · exact hfe
-    · rw [hmf] at hmf'; cases hmf'
-  refine ⟨hfe, ?_⟩
   have e1 := Ext.alloc h0 (.str key) e0.wf
   generalize hh1 : (alloc h0 (.str key)).2 = h1 at e1
   have hn1 : h1.next = h.next + 2 := by rw [← hh1, alloc_next, hn0]
@@ -175,7 +169,14 @@ theorem mapAddPut_spec (h : Heap) (hw : h.WF) (m : Nat) (ents : List Nat) (es : 
     rcases List.mem_append.mp hm with hm | hm
     · exact hmF hm
     · have := (hFe_range m hm).1; omega
-  refine ⟨hv, h2, h4, Ft ++ Fe, hcf, by rw [hh3]; exact hput, hw4 e3.wf, by rw [hn4]; exact e03.le, hg4,
+  have hadd : mapAddH fuel h ents nk key xa = some (ents ++ [h2.next], h3) := by
+    unfold mapAddH
+    rw [show alloc h (.str nk) = (h.next, h0) by rw [← hh0]; rfl]
+    simp only []
+    rw [show alloc h0 (.str key) = (h.next + 1, h1) by rw [← hh1, ← hn0]; rfl]
+    simp only [hcf]
+    rw [show alloc h2 (.entry hv h.next (h.next + 1)) = (h2.next, h3) by rw [← hh3]; rfl]
+  refine ⟨h2.next, h3, h4, Ft ++ Fe, hadd, hput, hw4 e3.wf, by rw [hn4]; exact e03.le, hg4,
     by rw [← e03.frame m hmlt]; exact hsk4, ?_, ?_, ?_, ?_, fun x hx => by cases hx⟩
   · simp only [Rep]
     refine ⟨_, rfl, ?_⟩
